@@ -350,7 +350,21 @@ def eval_case(
             except BindingViolation as e:
                 violation(f"binding:{e.signature}", fold, opt, B, e.detail)
                 continue
-            except (Unsupported, TranslatorMismatch, HarnessError):
+            except (Unsupported, TranslatorMismatch) as e:
+                # the shadow algebra could not follow the run.  Before calling it a harness error, check
+                # the same case concretely at the trace valuation: a confirmed disagreement with the
+                # oracle is a violation (typically the code took a path the algebra has no form for,
+                # e.g. a log-space constant evaluated as a linear one).
+                hmsg = f"{type(e).__name__}: {e}"
+                ok, msg, _ = concrete_eval(circuit_desc, semiring, fold, opt, B, {}, seed, monotone, build, normalized, oracle)
+                if ok:
+                    raise HarnessError(f"shadow engine failed and the concrete run agrees with the oracle: {hmsg[:600]}")
+                violation("value(concrete-fallback)", fold, opt, B, f"{msg} [shadow engine: {hmsg[:300]}]")
+                res["status"] = "violation"
+                res["aborted"] = "symbolic state reset by replay"
+                _finish(res, sess, senv, circuit_desc, semiring, nparams, sizes, ops)
+                return res
+            except HarnessError:
                 raise
             except Exception as e:  # raised by the real code
                 tb = traceback.format_exc()
